@@ -84,6 +84,9 @@ func c17ParamFields() []paramField {
 		f("slice", "[]string", "query", []string{"min items: 1", "max items: 4", "unique: true", "collection format: pipes"}, map[string]interface{}{"type": "array", "minItems": 1.0, "maxItems": 4.0, "uniqueItems": true, "collectionFormat": "pipes", "items.type": "string"}),
 		f("items", "[]int32", "query", []string{"items.minimum: 1", "items.maximum: 5"}, map[string]interface{}{"items.minimum": 1.0, "items.maximum": 5.0, "items.format": "int32"}),
 		f("items2", "[][]string", "query", []string{"items.items.min length: 2", "items.items.pattern: ^x", "items.min items: 1"}, map[string]interface{}{"items.items.minLength": 2.0, "items.items.pattern": "^x", "items.minItems": 1.0}),
+		f("items-ptr-elem", "[]*string", "query", []string{"items.min length: 3", "items.enum: abc,abcd", "max items: 2"}, map[string]interface{}{"type": "array", "maxItems": 2.0, "items.minLength": 3.0, "items.enum": []interface{}{"abc", "abcd"}, "items.type": "string", "minLength": nil, "enum": nil}),
+		f("items-ptr-int", "[]*int32", "header", []string{"items.maximum: 5"}, map[string]interface{}{"in": "header", "items.maximum": 5.0, "items.format": "int32", "maximum": nil}),
+		f("ptr-scalar", "*int64", "query", []string{"minimum: 2"}, map[string]interface{}{"type": "integer", "minimum": 2.0}),
 		f("header", "string", "header", nil, map[string]interface{}{"in": "header", "type": "string"}),
 		f("path", "int64", "path", nil, map[string]interface{}{"in": "path", "required": true, "type": "integer"}),
 		f("form", "string", "formData", []string{"max length: 5"}, map[string]interface{}{"in": "formData", "maxLength": 5.0}),
@@ -431,8 +434,16 @@ type Derived0003 struct {
 	Tags []string ` + "`json:\"tags\"`" + `
 	// read only: true
 	Ro string ` + "`json:\"ro\"`" + `
+	// the size
+	//
+	// required: true
+	// minimum: 1
+	Size int32 ` + "`json:\"size\"`" + `
 }
 `, Facts: []fact{
+		{Path: []string{"definitions", "derived0003", "allOf", "1", "required"}, Want: []interface{}{"size"}, What: "required own field of an allOf composition is required in the member that declares it"},
+		{Path: []string{"definitions", "derived0003", "required"}, Want: nil, What: "no required list on the composition itself"},
+		{Path: []string{"definitions", "derived0003", "allOf", "1", "properties", "size", "minimum"}, Want: 1.0, What: "own field minimum"},
 		{Path: []string{"definitions", "base0003", "properties", "id", "format"}, Want: "uuid", What: "strfmt on field"},
 		{Path: []string{"definitions", "derived0003", "allOf", "0", "$ref"}, Want: "#/definitions/base0003", What: "allOf ref"},
 		{Path: []string{"definitions", "derived0003", "allOf", "1", "properties", "mac", "format"}, Want: "mac0003", What: "custom strfmt type"},
